@@ -35,7 +35,9 @@ NSH = 16
 
 def plan(tier, seed):
     n = 5760 if tier == "quick" else 60000
-    return [{"name": "rt%02d" % i, "spec": {"n": n // NSH, "i": i}} for i in range(NSH)]
+    jobs = [{"name": "rt%02d" % i, "spec": {"n": n // NSH, "i": i}} for i in range(NSH)]
+    jobs += [{"name": "threads%02d" % i, "spec": {"kind": "threads", "rounds": 4 if tier == "quick" else 50}} for i in range(2 if tier == "quick" else 8)]
+    return jobs
 
 
 def mandatory_bins(tier):
@@ -44,7 +46,7 @@ def mandatory_bins(tier):
     b += ["key_trailing_zero_%d" % z for z in (1, 2, 3, 15)]
     b += ["crc_lo_00:cust", "crc_hi_00:cust", "crc_both_00:cust", "crc_lo_00:update", "crc_hi_00:update", "crc_both_00:update",
           "decryptors_all", "decryptors_single", "decryptors_partial", "pass_through_block", "encrypted_config_component", "customer_key_present", "customer_key_absent",
-          "version_00", "version_ff", "version_80", "code_all_zero", "code_ends_00", "config_blob_trailing_zero_padding", "key_all_zero", "ecc_distractor_decryptors_before_the_matching_one", "ecc_distractor_encryptors_on_write", "second_write_after_replacing_a_block_of_the_same_kind", "foreign_blocks_of_unknown_kind", "session_key_contains_customer_key", "file_name_instead_of_stream", "read_with_mac_check_off", "update_block_attributes_reassigned", "stream_positioned_after_other_content", "constructed_without_block_list_then_add_auth_block", "encryptors_given_as_tuple", "encryptors_given_as_deque", "encryptors_given_as_dict_values", "several_encrypted_components"]
+          "version_00", "version_ff", "version_80", "code_all_zero", "code_ends_00", "config_blob_trailing_zero_padding", "key_all_zero", "ecc_distractor_decryptors_before_the_matching_one", "ecc_distractor_encryptors_on_write", "second_write_after_replacing_a_block_of_the_same_kind", "foreign_blocks_of_unknown_kind", "session_key_contains_customer_key", "file_name_instead_of_stream", "read_with_mac_check_off", "update_block_attributes_reassigned", "stream_positioned_after_other_content", "constructed_without_block_list_then_add_auth_block", "encryptors_given_as_tuple", "encryptors_given_as_deque", "encryptors_given_as_dict_values", "several_encrypted_components", "write_and_read_by_concurrent_threads"]
     return b
 
 
@@ -284,9 +286,66 @@ def all_subsets(n):
 CONF = {(0x1111, 0x22): bytes([0x33] * 3), (0x0202, 0x82): bytes([0x45] * 8), (0x0620, 0x01): (10234).to_bytes(4, "big"), (0x0620, 0x05): (5678).to_bytes(2, "big"), (0x0620, 0x07): b"\x09", (0x0620, 0x06): b"Testname"}
 
 
+def run_threads(ns, ctx, spec):
+    """several threads writing and reading their own BEC2 files at the same time (customer-key / update blocks; all files under
+    ONE session key in half of the rounds), interleaved at every source line of the reader / writer / container / adapter code"""
+    from ..sched import yieldrun
+
+    B, BFm = ns.bec2file, ns.bf3file
+    rng = ctx.rng
+    codes = yieldrun.code_objects_of(BFm, BFm.Bf3File, BFm.Bf3Component, B.Bec2File, B.AesEncryptorMixin, B.SoftwareCustKeyEncryptor, B.UpdateAuthBlock, B.InitCustKeyAuthBlock, B.AuthBlock, ns.bytes_reader.BytesReader,
+                                     ns.plugin.AES128Proxy, ns.aes.AESModeOfOperationCBC)
+    total = 0
+    for rnd in range(spec["rounds"]):
+        nthreads = (2, 3)[rnd % 2]
+        cases = [G.gen_case(rng, ncomp=rng.choice((1, 2))) for _ in range(nthreads)]
+        keys = [rng.randbytes(16) for _ in range(nthreads)]
+        if rnd % 4 >= 2:
+            keys = [keys[0]] * nthreads
+        all_specs = [GB.gen_blocks(rng, rng.choice((("cust",), ("update",), ("cust", "update"), ("update", "cust")))) for _ in range(nthreads)]
+
+        def body(i):
+            def run():
+                f = B.Bec2File(G.build_real(ns, cases[i]), GB.real_auth_blocks(ns, all_specs[i]), keys[i])
+                buf = io.StringIO()
+                f.write_file(buf, GB.write_encryptors(ns, all_specs[i]))
+                back = B.Bec2File.read_file(io.StringIO(buf.getvalue()), GB.read_encryptors(ns, all_specs[i]), True)
+                return bytes(back.session_key), G.diff_file(back.bf3file, cases[i]), [block_attrs(b, ns) for b in back.auth_blocks.values()]
+            return run
+
+        res, y = yieldrun.run_concurrently([body(i) for i in range(nthreads)], codes, sleep=0.0001, max_yields=30000)
+        total += y
+        ctx.ev(nthreads)
+        ctx.bin("write_and_read_by_concurrent_threads")
+        ctx.mon("write_file", nthreads)
+        ctx.mon("read_file", nthreads)
+        ctx.distinct("threads", rnd, keys)
+        for i, r in enumerate(res):
+            rp = {"case": cases[i].to_json(), "conf": None, "key": keys[i].hex(), "blocks": GB.spec_json(all_specs[i]), "concurrent": True}
+            if r is None:
+                ctx.note("thread_still_running_after_timeout(inconclusive)")
+            elif r[0] == "exc":
+                if not any(len(c.desc_bytes()) > 210 for c in cases[i].comps):
+                    ctx.violation("reader_rejects_file_written_by_writer:concurrent_threads", {"exc": r[1]}, rp)
+            else:
+                k_, d_, blocks_ = r[1]
+                want = [{"cust": ("cust", 1), "update": ("update", 2, s_.get("code"), s_.get("version"))}[s_["kind"]] for s_ in all_specs[i]]
+                if k_ != keys[i]:
+                    ctx.violation("session_key_differs", {"how": "concurrent_threads"}, rp)
+                elif d_:
+                    ctx.violation("content_differs:" + d_[0].split("[")[0], {"diff": d_, "how": "concurrent_threads"}, rp)
+                elif blocks_ != want:
+                    ctx.violation("auth_blocks_differ:attributes", {"got": blocks_, "expected": want, "how": "concurrent_threads"}, rp)
+    ctx.mon("line_yields_injected", total)
+    ctx.sample({"kind": "threads", "rounds": spec["rounds"], "line_yields": total})
+
+
 def run_shard(spec, ctx):
     ns = load()
     rng = ctx.rng
+    if spec.get("kind") == "threads":
+        run_threads(ns, ctx, spec)
+        return
     lists = GB.all_block_lists()
     for j in range(spec["n"]):
         idx = spec["i"] + NSH * j
